@@ -467,6 +467,26 @@ def _evaluate(case, data, cfg, doc, acc, reading):
   member_unspec = any(("bad-label" in m.notes or "tco-before-tci" in m.notes or "ebn-order" in m.notes) for para in refdoc.paragraphs for m in para)
 
   features = []
+  if partial and not doc_unspec and not member_unspec:
+    # how the text of a dropped member accumulates is not fixed by the statement; that every *kept* member shows its own text
+    # from its time code in to its time code out is: probed in the middle of that interval
+    import re as _re
+    from ttconv.isd import ISD as _ISD
+    for para in refdoc.paragraphs:
+      for m in para:
+        if m.dropped or m.begin is None or m.end is None or not m.end > m.begin:
+          continue
+        letters = _re.sub(rb"[^A-Za-z]", b"", m.tf).decode("ascii")
+        if not letters:
+          continue
+        t = (m.begin + m.end) / 2
+        isd = _ISD.from_model(doc, t)
+        shown = "".join(ch for reg in isd.iter_regions() for b in reg for e in b.dfs_iterator() if isinstance(e, model.Text) for ch in e.get_text() if ch.isalpha())
+        if letters not in shown:
+          acc.violation("C09.visible", "cumulative-set-partially-dropped:kept-member-not-visible", case, observed=shown, expected=letters,
+                        note=f"subtitle SN={m.sn} (CS={m.cs}) begins after the programme start and is not visible at t={t} (middle of its interval)")
+          acc.case("unspecified:cumulative-partially-dropped", nontrivial=True)
+          return
   if doc_unspec or partial or member_unspec:
     # nothing that the statement fixes; the reader must still not crash (it did not)
     why = sorted(doc_unspec) or (["cumulative-partially-dropped"] if partial else ["label-or-chain-unspecified"])
@@ -864,11 +884,14 @@ SCHEDULES = [
   # (tci seconds, tco seconds) per subtitle: common end / staggered
   [(1, 9), (2, 9), (3, 9), (4, 9)],
   [(1, 3), (2, 5), (4, 6), (5, 8)],
+  # the second subtitle begins before the first (and before a programme start of 2 s, which the first reaches): a cumulative set
+  # whose first member is dropped must not accumulate onto the subtitle in front of it
+  [(3, 4), (1, 9), (4, 9), (5, 9)],
 ]
 
 
 def fam_cs(nsub):
-  prod = Product([[0, 1, 2, 3]] * nsub + [[0, 1], [None, "00:00:00:00", "00:00:02:00"], [0, 255, 300, 65535 - nsub]])
+  prod = Product([[0, 1, 2, 3]] * nsub + [[0, 1, 2], [None, "00:00:00:00", "00:00:02:00"], [0, 255, 300, 65535 - nsub]])
   texts = [b"\x0b\x0bOne\x0a\x0a", b"\x0b\x0bTwo  \x0a\x0a", b"\x06Three", b"Four"]
 
   def decode(i):
